@@ -1548,6 +1548,12 @@ impl Vm {
             return Err(self.new_error_from_value(exc_object));
         };
 
+        // The saved throw site is only meaningful while the exception is still propagating through
+        // finally blocks of the frame that threw it.
+        let same_frame = self.active_fiber().frames.len() == handler.frame_count;
+        if !(same_frame && handler.has_catch_block()) {
+            self.active_fiber_mut().error_ip = None;
+        }
         self.active_fiber_mut()
             .stack
             .truncate(handler.init_stack_size);
